@@ -3,6 +3,8 @@ package gosym
 import (
 	"fmt"
 	"os"
+	"sync/atomic"
+	"time"
 	"go/token"
 	"go/types"
 	"sort"
@@ -88,6 +90,7 @@ type RunResult struct {
 	Forks      map[string]int
 	SamplePC   []string
 	Models     map[string]bool
+	Cross      map[string]int // cvc5 cross-check results by verdict
 }
 
 type Options struct {
@@ -97,6 +100,7 @@ type Options struct {
 	DelayBound int
 	Seed       int64
 	Tier       int
+	CrossPct   int // percentage of discharged (unsat) obligations re-asked of cvc5 (thorough: 100)
 	Concrete   bool // selftest mode: no symbolic inputs expected
 }
 
@@ -165,6 +169,7 @@ type Machine struct {
 	mapOrder  int
 	mapFlip   int
 	sched     []SchedEntry
+	crossSeq  int
 	baseG     int
 }
 
@@ -467,7 +472,11 @@ func (m *Machine) assert(label string, c T, pos string) {
 	}
 	switch m.modelViolation(label, extra, pos, "") {
 	case smt.Unsat:
-		m.Res.Asserts[label]++
+		if m.crossCheck(extra) {
+			m.Res.Asserts[label]++
+		} else {
+			m.Res.Unknown[label+" (z3 unsat, cvc5 sat: solver disagreement)"]++
+		}
 		m.addPC(c) // implied by the path condition: helps the simplifier, changes nothing
 	case smt.Unknown:
 		m.Res.Unknown[label]++
@@ -475,6 +484,28 @@ func (m *Machine) assert(label string, c T, pos string) {
 		// violated for some values: the path continues unconstrained so that every later
 		// obligation is decided independently of this one
 	}
+}
+
+var crossCounter int64
+
+// crossCheck re-asks a discharged obligation of a second solver (cvc5, one-shot). Returns false only on a definite
+// disagreement (cvc5 says sat); a cvc5 timeout / unknown is counted but does not change the verdict.
+func (m *Machine) crossCheck(extra []T) bool {
+	if m.Opt.CrossPct <= 0 {
+		return true
+	}
+	if m.Opt.CrossPct < 100 {
+		// every (100/pct)-th discharged obligation of the whole run
+		n := atomic.AddInt64(&crossCounter, 1)
+		if n%int64(100/m.Opt.CrossPct) != 0 {
+			return true
+		}
+	}
+	all := append(append([]T(nil), m.pc...), extra...)
+	script := smt.Script(m.C, all, true)
+	r, _ := smt.OneShot([]string{"cvc5", "--lang=smt2", "--fp-exp", "--strings-exp", "-q", "--tlimit=20000"}, script, 25*time.Second)
+	m.Res.Cross[r.String()]++
+	return r != smt.Sat
 }
 
 // ---- input creation ----
